@@ -70,7 +70,8 @@ def _accessors(seed, n):
             src.append(("connect_valid_graph", r["value"]))
             lm = dsw.accessor_to_latter_map(r["value"])
             for th in (None, 2):
-                r2 = impl.call(dsw.latter_map_to_accessor, dict((a, list(b)) for a, b in lm.items()), k, threshold=th)
+                user = dict((int(a), [int(x) for x in (reversed(list(b)) if i % 2 else b)]) for a, b in lm.items())   # successor order as a user writes it
+                r2 = impl.call(dsw.latter_map_to_accessor, user, k, threshold=th)
                 if r2["out"] == "ok":
                     src.append(("latter_map_to_accessor(threshold=%s)" % th, r2["value"]))
             if k <= 3:
